@@ -85,26 +85,66 @@ func (m SliceDotsMatcher) Match(got reflect.Value, d data.Data, r Region) (data.
 		return d, false
 	}
 
-	return m.matchSections(1, gotItems, d, r, idx)
+	return m.matchSections(1, gotItems, d, r, idx, &sectionSearch{failed: make(map[sectionState]struct{})}, 0)
+}
+
+// sectionSearch remembers where the remaining sections of a SliceDotsMatcher
+// are known not to match, so that the search for a placement of all sections
+// does not try the same tail again and again: without it, a pattern with k
+// "..." takes a number of steps exponential in k on a long list.
+type sectionSearch struct {
+	failed   map[sectionState]struct{}
+	bindings int // number of distinct sets of bindings seen so far
+}
+
+// sectionState identifies a call of matchSections up to what can influence
+// its result: the section to place, the index to place it from, and the
+// metavariables bound so far (an id that changes whenever a section bound
+// one; matchers record other things in the data as well, such as positions
+// and the items skipped by "...", but only replacers look at those).
+type sectionState struct{ section, idx, bindings int }
+
+// bound reports the number of metavariables that have a value in d.
+func bound(d data.Data) (n int) {
+	for _, k := range d.Keys() {
+		if _, ok := k.(metavarKey); ok {
+			n++
+		}
+	}
+	return n
 }
 
 // matchSections matches m.Sections[i:] against got[idx:]. Each "..." takes
 // the shortest run of items after which the rest of the pattern matches: if
 // the rest does not match after the first place where the next section
 // matches, later places are tried too.
-func (m SliceDotsMatcher) matchSections(i int, got []reflect.Value, d data.Data, r Region, idx int) (data.Data, bool) {
+func (m SliceDotsMatcher) matchSections(i int, got []reflect.Value, d data.Data, r Region, idx int, s *sectionSearch, bindings int) (data.Data, bool) {
 	if i == len(m.Sections) {
 		return d, idx == len(got)
 	}
 
+	state := sectionState{section: i, idx: idx, bindings: bindings}
+	if _, ok := s.failed[state]; ok {
+		return d, false
+	}
+
 	dots, section := m.Dots[i-1], m.Sections[i]
+	had := bound(d)
 	for from := idx; from <= len(got); from++ {
 		newIdx, newD, ok := findSection(dots, section, got, d, r, idx, from)
 		if !ok {
-			return d, false
+			break
 		}
 
-		if resD, ok := m.matchSections(i+1, got, newD, r, newIdx); ok {
+		// If placing the section bound a metavariable, what follows may
+		// depend on it.
+		next := bindings
+		if bound(newD) != had {
+			s.bindings++
+			next = s.bindings
+		}
+
+		if resD, ok := m.matchSections(i+1, got, newD, r, newIdx, s, next); ok {
 			return resD, true
 		}
 
@@ -114,6 +154,7 @@ func (m SliceDotsMatcher) matchSections(i int, got []reflect.Value, d data.Data,
 		from = newIdx - len(section)
 	}
 
+	s.failed[state] = struct{}{}
 	return d, false
 }
 
